@@ -222,6 +222,11 @@ func Add(a, b Term) Term {
 					return Add(Term{args[0], SInt}, IntLit(ca+cb))
 				}
 			}
+			if h, args := splitApp(a.S); h == "-" && len(args) == 2 {
+				if ca, ok := litVal(args[1]); ok {
+					return Add(Term{args[0], SInt}, IntLit(cb-ca))
+				}
+			}
 			if ca, ok := litVal(a.S); ok {
 				return IntLit(ca + cb)
 			}
